@@ -44,7 +44,8 @@ class Emb:
         self.base = Decimal(base)
         self.fstep = Fraction(self.step)
         self.fbase = Fraction(self.base)
-        self.dyadic = (self.fstep.denominator & (self.fstep.denominator - 1)) == 0 and self.base == 0
+        pow2 = lambda f: (f.denominator & (f.denominator - 1)) == 0
+        self.dyadic = pow2(self.fstep) and pow2(self.fbase)
 
     def g(self, k):
         return float(self.base + self.step * k)
@@ -73,7 +74,8 @@ EMBS = {
     "tiny": Emb("tiny", "0.003"),
     "ms": Emb("ms", "0.001"),
     "cs": Emb("cs", "0.01"),
-    "far": Emb("far", "0.000001", base="2000"),      # only for operations that have no absolute origin (see checks_tier.FAR_OK)
+    "far": Emb("far", "0.000001", base="2000"),      # only for operations that have no absolute origin
+    "neg": Emb("neg", "0.125", base="-3"),           # a time axis that starts below zero (dyadic: exact); same restriction
 }
 
 POOLS = {
